@@ -13,9 +13,19 @@ Encodings of types, values and trees: see `Model/GoVal.lean` (`GoWire`) and `Spe
     arsh chain <o> <type> <k> <tree>×k        → results of the k successive calls starting from the
                                                  zero value, joined by ` ; ` (stops after the first E)
 Error classes: kind numsyntax range dup arraylen illtyped unmodelled.
+
+Marshal side (C04, L3).  `<mo>` is the marshal option word: bit 0 FormatNilSliceAsNull, bit 1
+FormatNilMapAsNull (Deterministic is always on in the model):
+
+    arsh mar <mo> <type> <value>              → ok <tree> | Minvalidutf8 | Milltyped | Munmodelled
+    arsh rt <mo> <type> <value>               → `<mar v> ; <unm (mar v) zero> ; <mar of that>` (stops at
+                                                 the first error), unmarshal under default options
+    arsh typed <type> <value>                 → 0|1   (`hasType`)
+    arsh safe <mo> <value>                    → 0|1   (`safe`: no pointer/interface holds a null-printing value)
 -/
 import JsonV.Oracle.Util
 import JsonV.Model.Unmarshal
+import JsonV.Model.Marshal
 
 namespace JsonV.Oracle.Arsh
 open JsonV JsonV.Oracle JsonV.Spec JsonV.Model
@@ -47,8 +57,57 @@ def chainStr (o : UOpts) (T : GoType) : List JTree → GoVal → List String
     | .error e => [errStr e]
     | .ok v' => ("ok " ++ GoWire.renderVal v') :: chainStr o T js v'
 
+def merrStr : MErr → String
+  | .invalidUTF8 => "Minvalidutf8" | .illTyped => "Milltyped" | .unmodelled => "Munmodelled"
+
+def parseMOpt (s : String) : Option MOpts :=
+  match s.toNat? with
+  | some n => if n < 4 then some { nilSliceAsNull := n % 2 == 1, nilMapAsNull := n / 2 == 1 } else none
+  | none => none
+
+def rtStr (o : MOpts) (T : GoType) (v : GoVal) : String :=
+  match mar o T v with
+  | .error e => merrStr e
+  | .ok j =>
+    let s1 := "ok " ++ TreeWire.render j
+    match unm {} T j T.zero with
+    | .error e => s1 ++ " ; " ++ errStr e
+    | .ok v' =>
+      let s2 := s1 ++ " ; ok " ++ GoWire.renderVal v'
+      match mar o T v' with
+      | .error e => s2 ++ " ; " ++ merrStr e
+      | .ok j' => s2 ++ " ; ok " ++ TreeWire.render j'
+
 def handle (op : String) (args : List String) : String :=
   match op, args with
+  | "mar", o :: toks =>
+    match parseMOpt o, GoWire.parseTypeToks toks with
+    | some o, some (t, r) =>
+      match GoWire.parseValToks r with
+      | some (v, []) =>
+        match mar o t v with
+        | .ok j => "ok " ++ TreeWire.render j
+        | .error e => merrStr e
+      | _ => badArgs
+    | _, _ => badArgs
+  | "rt", o :: toks =>
+    match parseMOpt o, GoWire.parseTypeToks toks with
+    | some o, some (t, r) =>
+      match GoWire.parseValToks r with
+      | some (v, []) => rtStr o t v
+      | _ => badArgs
+    | _, _ => badArgs
+  | "typed", toks =>
+    match GoWire.parseTypeToks toks with
+    | some (t, r) =>
+      match GoWire.parseValToks r with
+      | some (v, []) => boolStr (hasType t v)
+      | _ => badArgs
+    | none => badArgs
+  | "safe", o :: toks =>
+    match parseMOpt o, GoWire.parseValToks toks with
+    | some o, some (v, []) => boolStr (safe o v)
+    | _, _ => badArgs
   | "zero", toks =>
     match GoWire.parseTypeToks toks with
     | some (t, []) => GoWire.renderVal t.zero
